@@ -17,32 +17,62 @@ set_option linter.unusedSectionVars false
 /-! ### projections of the state primitives -/
 
 @[simp] theorem emit_store (st : St R) (e : Ev R) : (st.emit e).store = st.store := rfl
+@[simp] theorem emit_times (st : St R) (e : Ev R) : (st.emit e).times = st.times := rfl
+@[simp] theorem emit_stamp (st : St R) (e : Ev R) : (st.emit e).stamp = st.stamp := rfl
+@[simp] theorem emit_clock (st : St R) (e : Ev R) : (st.emit e).clock = st.clock := rfl
 @[simp] theorem emit_enabled (st : St R) (e : Ev R) : (st.emit e).enabled = st.enabled := rfl
 @[simp] theorem emit_regions (st : St R) (e : Ev R) : (st.emit e).regions = st.regions := rfl
 @[simp] theorem emit_trace (st : St R) (e : Ev R) : (st.emit e).trace = e :: st.trace := rfl
 @[simp] theorem put_store (st : St R) (K K' : Key R) (v : Str) :
     (st.put K v).store K' = if K' = K then some v else st.store K' := rfl
+@[simp] theorem put_times (st : St R) (K K' : Key R) (v : Str) :
+    (st.put K v).times K' = if K' = K then st.clock else st.times K' := rfl
+@[simp] theorem put_stamp (st : St R) (K : Key R) (v : Str) : (st.put K v).stamp = st.stamp := rfl
+@[simp] theorem put_clock (st : St R) (K : Key R) (v : Str) : (st.put K v).clock = st.clock + 1 := rfl
 @[simp] theorem put_enabled (st : St R) (K : Key R) (v : Str) : (st.put K v).enabled = st.enabled := rfl
 @[simp] theorem put_regions (st : St R) (K : Key R) (v : Str) : (st.put K v).regions = st.regions := rfl
 @[simp] theorem put_trace (st : St R) (K : Key R) (v : Str) : (st.put K v).trace = st.trace := rfl
 @[simp] theorem del_store (st : St R) (K K' : Key R) :
     (st.del K).store K' = if K' = K then none else st.store K' := rfl
+@[simp] theorem del_times (st : St R) (K : Key R) : (st.del K).times = st.times := rfl
+@[simp] theorem del_stamp (st : St R) (K : Key R) : (st.del K).stamp = st.stamp := rfl
+@[simp] theorem del_clock (st : St R) (K : Key R) : (st.del K).clock = st.clock := rfl
 @[simp] theorem del_enabled (st : St R) (K : Key R) : (st.del K).enabled = st.enabled := rfl
 @[simp] theorem del_regions (st : St R) (K : Key R) : (st.del K).regions = st.regions := rfl
 @[simp] theorem del_trace (st : St R) (K : Key R) : (st.del K).trace = st.trace := rfl
 @[simp] theorem setRegions_store (st : St R) (t : Nat) (r : List (Str × Kw)) : (st.setRegions t r).store = st.store := rfl
+@[simp] theorem setRegions_times (st : St R) (t : Nat) (r : List (Str × Kw)) : (st.setRegions t r).times = st.times := rfl
+@[simp] theorem setRegions_stamp (st : St R) (t : Nat) (r : List (Str × Kw)) : (st.setRegions t r).stamp = st.stamp := rfl
+@[simp] theorem setRegions_clock (st : St R) (t : Nat) (r : List (Str × Kw)) : (st.setRegions t r).clock = st.clock := rfl
 @[simp] theorem setRegions_enabled (st : St R) (t : Nat) (r : List (Str × Kw)) : (st.setRegions t r).enabled = st.enabled := rfl
 @[simp] theorem setRegions_trace (st : St R) (t : Nat) (r : List (Str × Kw)) : (st.setRegions t r).trace = st.trace := rfl
 @[simp] theorem setRegions_regions (st : St R) (t t' : Nat) (r : List (Str × Kw)) :
     (st.setRegions t r).regions t' = if t' = t then r else st.regions t' := rfl
 @[simp] theorem setEnabled_store (st : St R) (t : Nat) (b : Bool) : (st.setEnabled t b).store = st.store := rfl
+@[simp] theorem setEnabled_times (st : St R) (t : Nat) (b : Bool) : (st.setEnabled t b).times = st.times := rfl
+@[simp] theorem setEnabled_stamp (st : St R) (t : Nat) (b : Bool) : (st.setEnabled t b).stamp = st.stamp := rfl
+@[simp] theorem setEnabled_clock (st : St R) (t : Nat) (b : Bool) : (st.setEnabled t b).clock = st.clock := rfl
 @[simp] theorem setEnabled_regions (st : St R) (t : Nat) (b : Bool) : (st.setEnabled t b).regions = st.regions := rfl
 @[simp] theorem setEnabled_trace (st : St R) (t : Nat) (b : Bool) : (st.setEnabled t b).trace = st.trace := rfl
 @[simp] theorem setEnabled_enabled (st : St R) (t t' : Nat) (b : Bool) :
     (st.setEnabled t b).enabled t' = if t' = t then b else st.enabled t' := rfl
+@[simp] theorem setStamp_store (st : St R) (t : Nat) : (st.setStamp t).store = st.store := rfl
+@[simp] theorem setStamp_times (st : St R) (t : Nat) : (st.setStamp t).times = st.times := rfl
+@[simp] theorem setStamp_clock (st : St R) (t : Nat) : (st.setStamp t).clock = st.clock := rfl
+@[simp] theorem setStamp_enabled (st : St R) (t : Nat) : (st.setStamp t).enabled = st.enabled := rfl
+@[simp] theorem setStamp_regions (st : St R) (t : Nat) : (st.setStamp t).regions = st.regions := rfl
+@[simp] theorem setStamp_trace (st : St R) (t : Nat) : (st.setStamp t).trace = st.trace := rfl
+@[simp] theorem setStamp_stamp (st : St R) (t t' : Nat) :
+    (st.setStamp t).stamp t' = if t' = t then st.clock else st.stamp t' := rfl
 
 @[simp] theorem afterCall_store (P : Params R) (st : St R) (h : Hdr) (env' : Env) :
     (afterCall P st h env').store = st.store := rfl
+@[simp] theorem afterCall_times (P : Params R) (st : St R) (h : Hdr) (env' : Env) :
+    (afterCall P st h env').times = st.times := rfl
+@[simp] theorem afterCall_stamp (P : Params R) (st : St R) (h : Hdr) (env' : Env) :
+    (afterCall P st h env').stamp = st.stamp := rfl
+@[simp] theorem afterCall_clock (P : Params R) (st : St R) (h : Hdr) (env' : Env) :
+    (afterCall P st h env').clock = st.clock := rfl
 @[simp] theorem afterCall_enabled (P : Params R) (st : St R) (h : Hdr) (env' : Env) :
     (afterCall P st h env').enabled = st.enabled := rfl
 @[simp] theorem afterCall_trace (P : Params R) (st : St R) (h : Hdr) (env' : Env) :
@@ -71,79 +101,168 @@ set_option linter.unusedSectionVars false
 @[simp] theorem step_get (be : Backend R) (s : Spec R) (t : Nat) (c k : Str) (kw : Kw) :
     s.step be (.call t .get c k kw) = s := rfl
 @[simp] theorem step_set (be : Backend R) (s : Spec R) (t : Nat) (v c k : Str) (kw : Kw) :
-    s.step be (.call t (.set v) c k kw) = s.put (c, be.regionOf kw, k) ⟨v, t, .manual⟩ := rfl
+    s.step be (.call t (.set v) c k kw) = s.put (c, be.regionOf kw, k) v t .manual := rfl
 @[simp] theorem step_inv (be : Backend R) (s : Spec R) (t : Nat) (c k : Str) (kw : Kw) :
     s.step be (.call t .inv c k kw) = s.del (c, be.regionOf kw, k) := rfl
 @[simp] theorem step_created (be : Backend R) (s : Spec R) (t : Nat) (f : Str) (K : Key R) (v : Str) (c : Creation R) :
-    s.step be (.created t f K v c) = s.put K ⟨v, t, .creation c⟩ := rfl
+    s.step be (.created t f K v c) = s.put K v t (.creation c) := rfl
 @[simp] theorem step_enabledSet (be : Backend R) (s : Spec R) (t : Nat) (b : Bool) :
     s.step be (.enabledSet t b) = { s with enabled := fun t' => if t' = t then b else s.enabled t' } := rfl
+@[simp] theorem step_compiled (be : Backend R) (s : Spec R) (t : Nat) :
+    s.step be (.compiled t) = { s with stamp := fun t' => if t' = t then s.clock else s.stamp t' } := rfl
 
-@[simp] theorem spec_put_store (s : Spec R) (K K' : Key R) (e : Entry R) :
-    (s.put K e).store K' = if K' = K then some e else s.store K' := rfl
-@[simp] theorem spec_put_enabled (s : Spec R) (K : Key R) (e : Entry R) : (s.put K e).enabled = s.enabled := rfl
+@[simp] theorem spec_put_store (s : Spec R) (K K' : Key R) (v : Str) (o : Nat) (p : Prov R) :
+    (s.put K v o p).store K' = if K' = K then some ⟨v, o, p, s.clock⟩ else s.store K' := rfl
+@[simp] theorem spec_put_enabled (s : Spec R) (K : Key R) (v : Str) (o : Nat) (p : Prov R) :
+    (s.put K v o p).enabled = s.enabled := rfl
+@[simp] theorem spec_put_stamp (s : Spec R) (K : Key R) (v : Str) (o : Nat) (p : Prov R) :
+    (s.put K v o p).stamp = s.stamp := rfl
+@[simp] theorem spec_put_clock (s : Spec R) (K : Key R) (v : Str) (o : Nat) (p : Prov R) :
+    (s.put K v o p).clock = s.clock + 1 := rfl
 @[simp] theorem spec_del_store (s : Spec R) (K K' : Key R) :
     (s.del K).store K' = if K' = K then none else s.store K' := rfl
 @[simp] theorem spec_del_enabled (s : Spec R) (K : Key R) : (s.del K).enabled = s.enabled := rfl
+@[simp] theorem spec_del_stamp (s : Spec R) (K : Key R) : (s.del K).stamp = s.stamp := rfl
+@[simp] theorem spec_del_clock (s : Spec R) (K : Key R) : (s.del K).clock = s.clock := rfl
 
 /-! ### Sync -/
 
+/-- the model state and the specification state replayed from its trace agree entry by entry -/
+structure Agree (st : St R) (s : Spec R) : Prop where
+  store : ∀ K, st.store K = (s.store K).map (·.val)
+  times : ∀ K e, s.store K = some e → st.times K = e.time
+  stamp : st.stamp = s.stamp
+  clock : st.clock = s.clock
+  enabled : ∀ t, st.enabled t = s.enabled t
+
+theorem agree_visible (be : Backend R) (st : St R) (s : Spec R) (ha : Agree st s) (tid : Nat) (K : Key R) :
+    visible be st tid K = (s.visible be tid K).map (·.val) := by
+  unfold visible Spec.visible
+  have h1 := ha.store K
+  cases he : s.store K with
+  | none => simp [he] at h1; simp [h1]
+  | some e =>
+    simp [he] at h1
+    have h2 := ha.times K e he
+    simp only [h1, h2, ha.stamp]
+    split <;> rfl
+
+theorem agree_put (st : St R) (s : Spec R) (ha : Agree st s) (K : Key R) (v : Str) (o : Nat) (p : Prov R) :
+    Agree (st.put K v) (s.put K v o p) := by
+  refine ⟨fun K' => ?_, fun K' e => ?_, by simpa using ha.stamp, by simp [ha.clock], by simpa using ha.enabled⟩
+  · simp only [put_store, spec_put_store]; split <;> simp [ha.store K']
+  · simp only [put_times, spec_put_store]
+    split
+    · intro he; cases he; exact ha.clock
+    · exact ha.times K' e
+
+theorem agree_del (st : St R) (s : Spec R) (ha : Agree st s) (K : Key R) : Agree (st.del K) (s.del K) := by
+  refine ⟨fun K' => ?_, fun K' e => ?_, by simpa using ha.stamp, by simpa using ha.clock, by simpa using ha.enabled⟩
+  · simp only [del_store, spec_del_store]; split <;> simp [ha.store K']
+  · simp only [del_times, spec_del_store]
+    split
+    · intro he; cases he
+    · exact ha.times K' e
+
 structure Sync (w : World R) (st : St R) : Prop where
-  store : ∀ K, st.store K = ((replay w st.trace).store K).map (·.val)
-  enabled : ∀ t, st.enabled t = (replay w st.trace).enabled t
-  runs : traceAll w evRuns st.trace = true
+  agree : Agree st (replay w st.trace)
+  runs : traceAll w (evRuns w.be) st.trace = true
   rep : traceAll w evReplay st.trace = true
+  fresh : traceAll w (evFresh w.be) st.trace = true
+  le : ∀ t, st.stamp t ≤ st.clock
+  past : ∀ K v, st.store K = some v → st.times K < st.clock
+
+theorem Sync.store {w : World R} {st : St R} (h : Sync w st) :
+    ∀ K, st.store K = ((replay w st.trace).store K).map (·.val) := h.agree.store
+theorem Sync.enabled {w : World R} {st : St R} (h : Sync w st) :
+    ∀ t, st.enabled t = (replay w st.trace).enabled t := h.agree.enabled
 
 theorem sync_init (w : World R) : Sync w (St.init w) := by
-  refine ⟨fun K => by simp [St.init, Spec.init], fun t => ?_, by simp [St.init], by simp [St.init]⟩
+  refine ⟨⟨fun K => by simp [St.init, Spec.init], fun K e h => by simp [St.init, Spec.init] at h, rfl, rfl, fun t => ?_⟩,
+    by simp [St.init], by simp [St.init], by simp [St.init], fun t => by simp [St.init],
+    fun K v h => by simp [St.init] at h⟩
   simp only [St.init, Spec.init, replay_nil]
   cases w.tmpls[t]? <;> rfl
 
-theorem sync_preserved (w : World R) (P : Params R) (T : Items) : Preserved P T (Sync w) := by
+/-- an emitted event that leaves the specification state alone keeps `Agree` -/
+theorem agree_emit_same (st : St R) (s : Spec R) (e : Ev R) (ha : Agree st s) : Agree (st.emit e) s :=
+  ⟨ha.store, ha.times, ha.stamp, ha.clock, ha.enabled⟩
+
+theorem sync_preserved (w : World R) (P : Params R) (T : Items) (hbe : P.be = w.be) : Preserved P T (Sync w) := by
   constructor
   · intro st t hi
-    exact ⟨by simpa using hi.store, by simpa using hi.enabled, by simpa [evRuns] using hi.runs,
-      by simpa [evReplay] using hi.rep⟩
+    exact ⟨by simpa using agree_emit_same _ _ _ hi.agree, by simpa [evRuns] using hi.runs,
+      by simpa [evReplay] using hi.rep, by simpa [evFresh] using hi.fresh, hi.le, hi.past⟩
   · intro st h _ hi hen
-    refine ⟨by simpa using hi.store, by simpa using hi.enabled, ?_, by simpa [evReplay] using hi.rep⟩
+    refine ⟨by simpa using agree_emit_same _ _ _ hi.agree, ?_, by simpa [evReplay] using hi.rep,
+      by simpa [evFresh] using hi.fresh, hi.le, hi.past⟩
     have := hi.enabled P.tid
     simp [evRuns, hi.runs, ← this, hen]
   · intro st h env' v _ hi hen hs
-    have hst := hi.store (backendKey P st h env')
-    rw [hs] at hst
+    have hv := agree_visible P.be st _ hi.agree P.tid (backendKey P st h env')
+    rw [hs, hbe] at hv
     have hen' := hi.enabled P.tid
-    refine ⟨by simpa using hi.store, by simpa using hi.enabled, ?_, ?_⟩
-    · cases he : (replay w st.trace).store (backendKey P st h env') with
-      | none => simp [he] at hst
-      | some e => simp [evRuns, hi.runs, ← hen', hen, he]
-    · cases he : (replay w st.trace).store (backendKey P st h env') with
-      | none => simp [he] at hst
-      | some e =>
-        simp [he] at hst
-        simp [evReplay, hi.rep, he, hst]
+    have hag : Agree ((afterCall P st h env').emit (.enter P.tid (fname h) (backendKey P st h env') (.hit v)))
+        (replay w st.trace) := ⟨hi.agree.store, hi.agree.times, hi.agree.stamp, hi.agree.clock, hi.agree.enabled⟩
+    cases he : (replay w st.trace).visible w.be P.tid (backendKey P st h env') with
+    | none => simp [he] at hv
+    | some e =>
+      simp [he] at hv
+      -- the visible entry is the stored entry, and it is not older than the template
+      have hst : (replay w st.trace).store (backendKey P st h env') = some e ∧
+          (!w.be.honoursStarttime || decide ((replay w st.trace).stamp P.tid ≤ e.time)) = true := by
+        unfold Spec.visible at he
+        cases hs' : (replay w st.trace).store (backendKey P st h env') with
+        | none => simp [hs'] at he
+        | some e' =>
+          simp only [hs'] at he
+          split at he
+          · cases he
+          · rename_i hc
+            cases he
+            refine ⟨rfl, ?_⟩
+            cases hh : w.be.honoursStarttime <;> simp [hh] at hc ⊢
+            omega
+      refine ⟨by simpa using hag, ?_, ?_, ?_, hi.le, hi.past⟩
+      · simp [evRuns, hi.runs, ← hen', hen, he]
+      · simp [evReplay, hi.rep, hst.1, hv]
+      · simp only [emit_trace, afterCall_trace, traceAll_cons, replay_cons, step_goc]
+        simp only [evFresh, hst.1, hst.2, hi.fresh, Bool.and_self]
   · intro st h env' _ hi hen hs
-    have hst := hi.store (backendKey P st h env')
-    rw [hs] at hst
+    have hv := agree_visible P.be st _ hi.agree P.tid (backendKey P st h env')
+    rw [hs, hbe] at hv
     have hen' := hi.enabled P.tid
-    refine ⟨by simpa using hi.store, by simpa using hi.enabled, ?_, by simpa [evReplay] using hi.rep⟩
-    cases he : (replay w st.trace).store (backendKey P st h env') with
+    have hag : Agree ((afterCall P st h env').emit (.enter P.tid (fname h) (backendKey P st h env') .miss))
+        (replay w st.trace) := ⟨hi.agree.store, hi.agree.times, hi.agree.stamp, hi.agree.clock, hi.agree.enabled⟩
+    refine ⟨by simpa using hag, ?_, by simpa [evReplay] using hi.rep, by simpa [evFresh] using hi.fresh, hi.le, hi.past⟩
+    cases he : (replay w st.trace).visible w.be P.tid (backendKey P st h env') with
     | none => simp [evRuns, hi.runs, ← hen', hen, he]
-    | some e => simp [he] at hst
+    | some e => simp [he] at hv
   · intro st0 h body env' r key _ hi
-    refine ⟨?_, by simpa using hi.enabled, by simpa [evRuns] using hi.runs, by simpa [evReplay] using hi.rep⟩
-    intro K
-    by_cases hK : K = (cid P.tm, r, key)
-    · simp [hK]
-    · simp [hK, hi.store K]
+    refine ⟨?_, by simpa [evRuns] using hi.runs, by simpa [evReplay] using hi.rep, by simpa [evFresh] using hi.fresh, ?_, ?_⟩
+    · simpa using agree_emit_same _ _ _ (agree_put _ _ hi.agree (cid P.tm, r, key) _ P.tid _)
+    · intro t; have := hi.le t; simp; omega
+    · intro K v
+      simp only [emit_store, put_store, emit_times, put_times, emit_clock, put_clock]
+      split
+      · intro _; omega
+      · intro hK; have := hi.past K v hK; omega
 
 theorem invalidateCore_sync (w : World R) (tm : Tmpl) (t : Nat) (st : St R) (key : Str) (kw : Kw) (d : Str)
     (hi : Sync w st) : Sync w (invalidateCore w.be tm t st key kw d) := by
   unfold invalidateCore
-  refine ⟨?_, by simpa using hi.enabled, by simpa [evRuns] using hi.runs, by simpa [evReplay] using hi.rep⟩
-  intro K
-  simp only [del_store, emit_store, setRegions_store, del_trace, emit_trace, setRegions_trace, replay_cons, step_inv,
-    spec_del_store]
-  split <;> simp [hi.store K]
+  refine ⟨?_, by simpa [evRuns] using hi.runs, by simpa [evReplay] using hi.rep, by simpa [evFresh] using hi.fresh,
+    by simpa using hi.le, ?_⟩
+  · have h0 : Agree ((st.setRegions t (getCacheKw tm.cacheArgs (st.regions t) d kw).2).emit
+        (.call t .inv (cid tm) key (getCacheKw tm.cacheArgs (st.regions t) d kw).1)) (replay w st.trace) :=
+      ⟨hi.agree.store, hi.agree.times, hi.agree.stamp, hi.agree.clock, hi.agree.enabled⟩
+    simpa using agree_del _ _ h0 (cid tm, w.be.regionOf (getCacheKw tm.cacheArgs (st.regions t) d kw).1, key)
+  · intro K' v
+    simp only [del_store, del_times, del_clock, emit_store, emit_times, emit_clock, setRegions_store, setRegions_times,
+      setRegions_clock]
+    split
+    · intro h; cases h
+    · exact hi.past K' v
 
 theorem step_sync (w : World R) (st : St R) (op : Op) (hi : Sync w st) : Sync w (step w st op).2 := by
   cases op with
@@ -152,7 +271,7 @@ theorem step_sync (w : World R) (st : St R) (op : Op) (hi : Sync w st) : Sync w 
     cases ht : w.tmpls[t]? with
     | none => simpa using hi
     | some tm =>
-      exact run_preserves ⟨w.be, tm, t, c⟩ tm.tree (Sync w) (sync_preserved w _ _) _ c st (fun _ hh => hh) hi
+      exact run_preserves ⟨w.be, tm, t, c⟩ tm.tree (Sync w) (sync_preserved w _ _ rfl) _ c st (fun _ hh => hh) hi
   | invalidateBody t =>
     simp only [step]
     cases ht : w.tmpls[t]? with
@@ -178,26 +297,48 @@ theorem step_sync (w : World R) (st : St R) (op : Op) (hi : Sync w st) : Sync w 
     cases ht : w.tmpls[t]? with
     | none => simpa using hi
     | some tm =>
-      refine ⟨?_, by simpa using hi.enabled, by simpa [evRuns] using hi.runs, by simpa [evReplay] using hi.rep⟩
-      intro K
-      simp only [put_store, emit_store, put_trace, emit_trace, replay_cons, step_set, spec_put_store]
-      split <;> simp [hi.store K]
+      refine ⟨?_, by simpa [evRuns] using hi.runs, by simpa [evReplay] using hi.rep, by simpa [evFresh] using hi.fresh, ?_, ?_⟩
+      · have h0 : Agree (st.emit (.call t (.set v) (cid tm) k (aUpdate tm.cacheArgs kw))) (replay w st.trace) :=
+          agree_emit_same _ _ _ hi.agree
+        simpa using agree_put _ _ h0 (cid tm, w.be.regionOf (aUpdate tm.cacheArgs kw), k) v t .manual
+      · intro t'; have := hi.le t'; simp; omega
+      · intro K v'
+        simp only [put_store, emit_store, put_times, emit_times, put_clock, emit_clock]
+        split
+        · intro _; omega
+        · intro hK; have := hi.past K v' hK; omega
   | get t k kw =>
     simp only [step]
     cases ht : w.tmpls[t]? with
     | none => simpa using hi
     | some tm =>
-      exact ⟨by simpa using hi.store, by simpa using hi.enabled, by simpa [evRuns] using hi.runs,
-        by simpa [evReplay] using hi.rep⟩
+      exact ⟨by simpa using agree_emit_same _ _ _ hi.agree, by simpa [evRuns] using hi.runs,
+        by simpa [evReplay] using hi.rep, by simpa [evFresh] using hi.fresh, hi.le, hi.past⟩
   | setEnabled t b =>
     simp only [step]
     cases ht : w.tmpls[t]? with
     | none => simpa using hi
     | some tm =>
-      refine ⟨by simpa using hi.store, ?_, by simpa [evRuns] using hi.runs, by simpa [evReplay] using hi.rep⟩
+      refine ⟨⟨hi.agree.store, hi.agree.times, hi.agree.stamp, hi.agree.clock, ?_⟩, by simpa [evRuns] using hi.runs,
+        by simpa [evReplay] using hi.rep, by simpa [evFresh] using hi.fresh, hi.le, hi.past⟩
       intro t'
       simp only [emit_enabled, setEnabled_enabled, emit_trace, setEnabled_trace, replay_cons, step_enabledSet]
       split <;> simp [hi.enabled t']
+  | compile t =>
+    simp only [step]
+    cases ht : w.tmpls[t]? with
+    | none => simpa using hi
+    | some tm =>
+      refine ⟨⟨hi.agree.store, hi.agree.times, ?_, hi.agree.clock, hi.agree.enabled⟩, by simpa [evRuns] using hi.runs,
+        by simpa [evReplay] using hi.rep, by simpa [evFresh] using hi.fresh, ?_, hi.past⟩
+      · funext t'
+        simp only [emit_stamp, setStamp_stamp, emit_trace, setStamp_trace, replay_cons, step_compiled]
+        rw [hi.agree.clock, hi.agree.stamp]
+      · intro t'
+        simp only [emit_stamp, setStamp_stamp, emit_clock, setStamp_clock]
+        split
+        · exact Nat.le_refl _
+        · exact hi.le t'
 
 theorem runFrom_sync (w : World R) (ops : List Op) : ∀ (st : St R), Sync w st → Sync w (runFrom w st ops) := by
   induction ops with
@@ -308,6 +449,11 @@ theorem step_own (w : World R) (hd : IdsDistinct w) (st : St R) (op : Op) (hi : 
     | none => simpa using hi
     | some tm => exact ⟨by simpa using hi.owned, by simpa [evOwn] using hi.own⟩
   | setEnabled t b =>
+    simp only [step]
+    cases ht : w.tmpls[t]? with
+    | none => simpa using hi
+    | some tm => exact ⟨by simpa using hi.owned, by simpa [evOwn] using hi.own⟩
+  | compile t =>
     simp only [step]
     cases ht : w.tmpls[t]? with
     | none => simpa using hi
@@ -433,6 +579,11 @@ theorem step_regMono (w : World R) (st0 st : St R) (op : Op) (hi : RegMono st0 s
     cases ht : w.tmpls[t]? with
     | none => simpa using hi
     | some tm => simpa [RegMono] using hi
+  | compile t =>
+    simp only [step]
+    cases ht : w.tmpls[t]? with
+    | none => simpa using hi
+    | some tm => simpa [RegMono] using hi
 
 theorem runFrom_regMono (w : World R) (ops : List Op) :
     ∀ (st0 st : St R), RegMono st0 st → RegMono st0 (runFrom w st ops) := by
@@ -514,6 +665,11 @@ theorem step_memo (w : World R) (st : St R) (op : Op) (hop : op.isCallableInvali
     cases ht : w.tmpls[t]? with
     | none => simpa using hi
     | some tm => simpa [MemoFromRender] using hi
+  | compile t =>
+    simp only [step]
+    cases ht : w.tmpls[t]? with
+    | none => simpa using hi
+    | some tm => simpa [MemoFromRender] using hi
 
 theorem runFrom_memo (w : World R) (ops : List Op) (hops : ∀ op ∈ ops, op.isCallableInvalidation = false) :
     ∀ (st : St R), MemoFromRender w st → MemoFromRender w (runFrom w st ops) := by
@@ -528,16 +684,23 @@ theorem runFrom_memo (w : World R) (ops : List Op) (hops : ∀ op ∈ ops, op.is
 
 structure SnapEq (a b : St R) : Prop where
   store : a.store = b.store
+  times : a.times = b.times
+  stamp : a.stamp = b.stamp
+  clock : a.clock = b.clock
   enabled : a.enabled = b.enabled
   regions : a.regions = b.regions
 
-theorem snapEq_toSt (st : St R) : SnapEq st st.snap.toSt := ⟨rfl, rfl, rfl⟩
+theorem snapEq_toSt (st : St R) : SnapEq st st.snap.toSt := ⟨rfl, rfl, rfl, rfl, rfl, rfl⟩
 
 theorem snapEq_emit (a b : St R) (x y : Ev R) (h : SnapEq a b) : SnapEq (a.emit x) (b.emit y) :=
-  ⟨h.store, h.enabled, h.regions⟩
+  ⟨h.store, h.times, h.stamp, h.clock, h.enabled, h.regions⟩
 
 theorem snapEq_put (a b : St R) (K : Key R) (v : Str) (h : SnapEq a b) : SnapEq (a.put K v) (b.put K v) :=
-  ⟨by funext K'; simp [h.store], h.enabled, h.regions⟩
+  ⟨by funext K'; simp [h.store], by funext K'; simp [h.times, h.clock], h.stamp, by simp [h.clock], h.enabled, h.regions⟩
+
+theorem visible_snap (be : Backend R) (a b : St R) (tid : Nat) (K : Key R) (h : SnapEq a b) :
+    visible be a tid K = visible be b tid K := by
+  simp [visible, h.store, h.times, h.stamp]
 
 theorem backendKey_snap (P : Params R) (a b : St R) (h : Hdr) (env' : Env) (hs : SnapEq a b) :
     backendKey P a h env' = backendKey P b h env' := by
@@ -545,7 +708,7 @@ theorem backendKey_snap (P : Params R) (a b : St R) (h : Hdr) (env' : Env) (hs :
 
 theorem snapEq_afterCall (P : Params R) (a b : St R) (h : Hdr) (env' : Env) (hs : SnapEq a b) :
     SnapEq (afterCall P a h env') (afterCall P b h env') :=
-  ⟨hs.store, hs.enabled, by funext t; simp [hs.regions]⟩
+  ⟨hs.store, hs.times, hs.stamp, hs.clock, hs.enabled, by funext t; simp [hs.regions]⟩
 
 theorem run_snap (P : Params R) : ∀ (its : Items) (env : Env) (a b : St R), SnapEq a b →
     (run P env its a).1 = (run P env its b).1 ∧ SnapEq (run P env its a).2 (run P env its b).2 := by
@@ -573,13 +736,15 @@ theorem run_snap (P : Params R) : ∀ (its : Items) (env : Env) (a b : St R), Sn
     by_cases hc : h.cached = true
     · by_cases hen : a.enabled P.tid = true
       · have henb : b.enabled P.tid = true := by rw [← hs.enabled]; exact hen
-        cases hst : a.store (backendKey P a h (scope P h env arg)) with
+        cases hst : visible P.be a P.tid (backendKey P a h (scope P h env arg)) with
         | some v =>
-          have hstb : b.store (backendKey P b h (scope P h env arg)) = some v := by rw [← hK, ← hs.store]; exact hst
+          have hstb : visible P.be b P.tid (backendKey P b h (scope P h env arg)) = some v := by
+            rw [← hK, ← visible_snap P.be a b P.tid _ hs]; exact hst
           rw [run_inv_hit P env h arg site body rest a v hc hen hst, run_inv_hit P env h arg site body rest b v hc henb hstb]
           exact cont _ _ v v rfl (snapEq_emit _ _ _ _ (snapEq_afterCall P a b h (scope P h env arg) hs))
         | none =>
-          have hstb : b.store (backendKey P b h (scope P h env arg)) = none := by rw [← hK, ← hs.store]; exact hst
+          have hstb : visible P.be b P.tid (backendKey P b h (scope P h env arg)) = none := by
+            rw [← hK, ← visible_snap P.be a b P.tid _ hs]; exact hst
           rw [run_inv_miss P env h arg site body rest a hc hen hst, run_inv_miss P env h arg site body rest b hc henb hstb]
           have hb := ihb (scope P h env arg) _ _ (snapEq_emit _ _
             (.enter P.tid (fname h) (backendKey P a h (scope P h env arg)) .miss)
@@ -625,7 +790,7 @@ theorem prov_init (w : World R) : ProvInv w (St.init w) :=
 
 theorem prov_preserved (w : World R) (P : Params R) (T : Items) (hbe : P.be = w.be)
     (htm : w.tmpls[P.tid]? = some P.tm) : Preserved P T (ProvInv w) := by
-  have hs := sync_preserved w P T
+  have hs := sync_preserved w P T hbe
   constructor
   · intro st t hi
     exact ⟨hs.tick st t hi.sync, by simpa using hi.prov, by simpa [evCreation] using hi.chk⟩
@@ -635,8 +800,17 @@ theorem prov_preserved (w : World R) (P : Params R) (T : Items) (hbe : P.be = w.
     refine ⟨hs.hit st h env' v hh hi.sync hen hst, by simpa using hi.prov, ?_⟩
     simp only [emit_trace, afterCall_trace, traceAllP_cons, replay_cons, step_goc]
     refine ⟨?_, by simp [evCreation], hi.chk⟩
+    have hvis : st.store (backendKey P st h env') = some v := by
+      unfold visible at hst
+      cases hs' : st.store (backendKey P st h env') with
+      | none => simp [hs'] at hst
+      | some v' =>
+        simp only [hs'] at hst
+        split at hst
+        · cases hst
+        · cases hst; rfl
     have h1 := hi.sync.store (backendKey P st h env')
-    rw [hst] at h1
+    rw [hvis] at h1
     cases he : (replay w st.trace).store (backendKey P st h env') with
     | none => simp [he] at h1
     | some e =>
@@ -746,6 +920,15 @@ theorem step_prov (w : World R) (st : St R) (op : Op) (hi : ProvInv w st) : Prov
       refine ⟨hsy, ?_, by simpa [evCreation] using hi.chk⟩
       intro K e
       simpa using hi.prov K e
+  | compile t =>
+    simp only [step] at hsy ⊢
+    cases ht : w.tmpls[t]? with
+    | none => simpa using hi
+    | some tm =>
+      simp only [ht] at hsy
+      refine ⟨hsy, ?_, by simpa [evCreation] using hi.chk⟩
+      intro K e
+      simpa using hi.prov K e
 
 theorem runFrom_prov (w : World R) (ops : List Op) : ∀ (st : St R), ProvInv w st → ProvInv w (runFrom w st ops) := by
   induction ops with
@@ -793,6 +976,7 @@ theorem step_memo_late (w : World R) (st : St R) (op : Op)
   | set t k v kw => exact step_memo w st _ rfl hi
   | get t k kw => exact step_memo w st _ rfl hi
   | setEnabled t b => exact step_memo w st _ rfl hi
+  | compile t => exact step_memo w st _ rfl hi
 
 theorem runFrom_memo_late (w : World R) (ops : List Op) :
     ∀ (st : St R), noEarlyInvalidation w st ops = true → MemoFromRender w st → MemoFromRender w (runFrom w st ops) := by
